@@ -127,6 +127,8 @@ def _init_worker():
     import warnings
     logging.disable(logging.CRITICAL)
     warnings.simplefilter("ignore")
+    import sys
+    sys.unraisablehook = lambda *a: None   # abandoned worlds hold pending coroutines; silence teardown noise
 
 
 class Result:
